@@ -170,8 +170,9 @@ def _check(pid, P, tier, seed, bdir, ev):
         lemma_serving = {nm: t for nm, t in tags.items() if pid in t['serves'] or 'ALL' in t['serves']}
         # per-function accounting
         for key, f in sorted(serving.items()):
-            st = r.fn_status.get(f['verus_name'])
-            nobl = r.obligations.get(f['verus_name'], 0)
+            vn = VR.resolve_name(r, f['verus_name'])
+            st = r.fn_status.get(vn)
+            nobl = r.obligations.get(vn, 0)
             ffails = [x for x in failures if x.fn_key == key]
             entry = dict(function=VR.short(key), repo='%s:%d-%d' % (f['file'], f['lines'][0], f['lines'][1]), mode=f['mode'],
                          sha256_source=f['sha256_source'], sha256_emitted=f.get('sha256_emitted'), rules=f.get('rules', []),
